@@ -406,7 +406,7 @@ def classes(case):
 
 SUBS = [
     Sub("histories", check, gen=lambda tier: histories(), nontrivial=nontrivial, classes=classes,
-        n={"quick": 400, "thorough": 4000},
+        n={"quick": 800, "thorough": 6000},
         essential=["mixed-decomposition", "no-ctcs", "root-only", "shared-object-reused", "filtered"]),
 ]
 
